@@ -530,6 +530,11 @@ def main(argv=None):
             rec = json.load(f)
         try:
             msg = mod.replay(rec["case"])
+            if not msg and hasattr(mod, "warmup"):
+                mod.warmup()     # failures that need state carried over from earlier calls
+                msg = mod.replay(rec["case"])
+                if msg:
+                    msg += " [after warm-up calls]"
         except Exception:
             traceback.print_exc()
             return 2
@@ -588,14 +593,23 @@ def main(argv=None):
             confirmed = mod.replay(f["case"])
         except Exception:
             confirmed = "replay function raised: " + traceback.format_exc()[-400:]
-        path = write_replay(prop, bucket, f["case"], f["message"])
+        note = ""
+        if confirmed is None and hasattr(mod, "warmup"):
+            # state carried between calls (a cache filled by other rules / earlier operations): exercise the library
+            # the way a long run does, then replay again in this process
+            try:
+                mod.warmup()
+                confirmed = mod.replay(f["case"])
+            except Exception:
+                confirmed = "replay after warm-up raised: " + traceback.format_exc()[-400:]
+            if confirmed is not None:
+                note = " [reproduces only after other calls: behaviour depends on call history]"
         if confirmed is None:
-            print(f"HARNESS-ERROR property={prop} bucket={bucket}: generated failure does not reproduce "
-                  f"through the replay function ({path}): {f['message'][:300]}")
-            write_evidence(prop, a.tier, seed, ctx, mod, time.time() - t0, 0,
-                           {"harness_error": f"unreproducible failure in bucket {bucket}"})
-            return 2
-        violations.append((bucket, path, f["message"]))
+            # the harness is deterministic and quiet on the unchanged tree, so a failure that the isolated case does
+            # not reproduce means the library answered differently depending on what ran before in that process
+            note = " [NOT reproducible from the isolated case: the outcome depended on earlier calls in the same process]"
+        path = write_replay(prop, bucket, f["case"], f["message"] + note)
+        violations.append((bucket, path, f["message"] + note))
 
     wall = time.time() - t0
     write_evidence(prop, a.tier, seed, ctx, mod, wall, len(violations))
